@@ -25,6 +25,14 @@ CLAIMED["C19"] = dict(
          "The three defuns are executed from chokan.el's text by a mini elisp evaluator and compared with the model on exhaustive short strings and random strings. Idempotence is checked on every explored input but not proved in general.",
     note="partial: idempotence has no general proof (tested exhaustively on strings up to length 4/5 over a reduced alphabet); Emacs is absent, so the evaluator /verif/tools/elisp_mini.py (reproduces chokan-tests.el) is trusted to stand in for it.",
     ref="6/C19")
+CLAIMED["C04"] = dict(
+    technique="Coq proof (invariant + refinement to a key set, all admissible free-slot choices) + step-refinement correspondence with the implementation's own choices",
+    text="Kernel-checked theorems about a Gallina model that mirrors libs/trie function by function: for every trie reachable by any insertion history under ANY admissible xcheck choice "
+         "(every HashSet iteration order, hence every layout, clone and deserialised copy) lookup is true iff the key was inserted (C04_set_semantics, C04_insert_spec), keys outside the alphabet are rejected "
+         "and leave the trie unchanged (C04_reject), no expect/assert/index panic is reachable (C04_insert_total, C04_panic_only_bad_hint), the structural invariant holds (C04_inv). "
+         "Every run replays random histories (prefix chains, relocations, clone, postcard round trips) in the model with the implementation's own free-slot choices and compares arrays and free set exactly.",
+    note="full. Trusted: Coq kernel, the hand model Trie/TrieModel.v being tied by per-insertion array equality (sampled), serde views of the arrays, indices < 2^31, postcard round trip observed not proved.",
+    ref="6/C04, A.1")
 PENDING = {}
 
 def main():
